@@ -221,7 +221,7 @@ def run_one(vname, prop, tier, seed, shard, nshards, outdir, extra_env, timeout)
         res["status"] = "tool_report"
     elif variant(vname)["kind"] == "tsan" and r.returncode == 66:
         res["status"] = "tool_report"
-    elif variant(vname)["kind"] == "miri" and ("Undefined Behavior" in r.stdout or "error: " in r.stdout and "unsupported operation" not in r.stdout):
+    elif variant(vname)["kind"] == "miri" and ("Undefined Behavior" in r.stdout or "error: memory leaked" in r.stdout or "error: deadlock" in r.stdout):
         res["status"] = "tool_report"
     else:
         res["status"] = "harness_error"
